@@ -52,7 +52,7 @@ def run_case(c):
         g = fr
         out["final"] = dict(T=int(g.tchans), F=int(g.fchans), ascending=bool(g.ascending), df=float(g.df), dt=float(g.dt), fch1=float(g.fch1), has_wf=g.waterfall is not None)
         gdata = g.data.astype(np.float32)
-        for fmt in ("fil", "h5"):
+        for fmt in c.get("formats", ("fil", "h5")):
             fn = os.path.join(d, "final." + fmt)
             rec = dict(fmt=fmt)
             try:
@@ -65,6 +65,8 @@ def run_case(c):
                 out["fails"].append(["roundtrip-raises", "%s: save/load raised %s: %s (frame shape %s, history %s)" % (fmt, type(ex).__name__, str(ex)[:120], g.shape, [o[0] for o in c["ops"]])]); continue
             rec["shape"] = [int(h.tchans), int(h.fchans)]
             where = "%s after history %s" % (fmt, [o[0] for o in c["ops"]])
+            if tuple(np.shape(h.data)) != tuple(g.shape):
+                out["fails"].append(["roundtrip-shape", "%s: frame of shape %s reads back with data of shape %s" % (where, g.shape, np.shape(h.data))]); out["saves"].append(rec); continue
             if h.shape != g.shape:
                 out["fails"].append(["roundtrip-shape", "%s: frame of shape %s reads back as %s" % (where, g.shape, h.shape)]); out["saves"].append(rec); continue
             if not np.array_equal(h.data.astype(np.float32), gdata):
